@@ -137,6 +137,9 @@ def run(ctx):
     for cfg, depth in configs(ctx):
         cachebfs.explore(ctx, cfg, WANT, depth, state_cap=600000)
     if ctx.quick:
+        # a partially filled 4-way tree-PLRU set fills its ways in the order 0, 2, 1, 3
+        cachebfs.explore(ctx, Cfg(0, 0, 4, "wb", "plru", 0, "word", False, "base"), WANT, 4)
+        cachebfs.explore(ctx, Cfg(0, 0, 4, "wt", "plru", 0, "word", True, "base"), WANT, 4)
         # the only kind of geometry in which tag 0 (the tag of a never-filled way) belongs to a valid data address
         cachebfs.explore(ctx, Cfg(12, 1, 1, ("wb", "wt")[ctx.seed % 2], "lru", 0, "word", False, "base"), WANT, 1)
     ctx.require("cache-eviction", "cache-fill", "rejected")
